@@ -96,7 +96,9 @@ func vfC10(env *vfc.Env) {
 			}
 			n, side = 2*d+r.Pick(0, 1, 300), "far-repeat"
 		}
-		flag := uint32(r.Pick(0, 0, 1, 0x20))
+		// client flags are arbitrary 32-bit values; only bit 0x10000 is reserved for the server
+		flag := uint32(r.Pick(0, 0, 1, 0x20, 0x20000, 0x00a20001, 0x80000000, int(r.Uint64()&0x7ffeffef)))
+		flag &^= ref.FlagCompress
 		if r.Intn(5) == 0 {
 			flag |= ref.FlagClientCompress
 			side += "/client-compressed"
